@@ -97,14 +97,22 @@ Hypothesis K_upd : Kupd K.
 Definition rpost (g : ghost) (P : N) (GP : option N) (m1 : list N) (s' : pstate) (g' : ghost) (m2' : list N) : Prop :=
   TI s' g' /\ reloc g g' (desc g (top P GP)) /\ ctx g' P GP m1 m2' /\ (forall r, groot g r -> groot g' r) /\ typed (p_tree s') /\ K (p_tree s') g'.
 
+Definition rwpost (g : ghost) (x : N) (GP : option N) (m1 m2 : list N) (s' : pstate) : Prop :=
+  exists g' m2', rpost g x GP m1 s' g' m2' /\ (length m2' <= length m2)%nat /\
+    (forall q, ~ desc g x q -> q <> top x GP -> kids g' q = kids g q).
+
+Definition rlpost (g : ghost) (obj : N) (GP : option N) (m1 m2 l : list N) (s' : pstate) : Prop :=
+  exists g' m2', rpost g obj GP m1 s' g' m2' /\ (length m2' <= length m2)%nat /\
+    (forall q, (forall c, In c l -> ~ desc g c q) -> q <> obj -> q <> top obj GP -> kids g' q = kids g q).
+
 Definition RC_spec (fuel : nat) : Prop := forall x s g GP m1 m2,
   TI s g -> typed (p_tree s) -> glive g 0 -> glive g x -> ctx g x GP m1 m2 -> K (p_tree s) g ->
-  wp True (resolveMethodCalls fuel x) s (fun r s' => exists g' m2', rpost g x GP m1 s' g' m2').
+  wp (PO2 g x m2 fuel) (resolveMethodCalls fuel x) s (fun r s' => rwpost g x GP m1 m2 s').
 
-Definition RCloop_spec (fuel : nat) : Prop := forall obj argIndex s g GP m1 m2,
+Definition RCloop_spec (fuel : nat) : Prop := forall obj argIndex s g GP m1 m2 l r,
   TI s g -> typed (p_tree s) -> glive g 0 -> glive g obj -> ctx g obj GP m1 m2 -> K (p_tree s) g ->
-  (argIndex = InvalidIndex \/ In argIndex (kids g obj)) ->
-  wp True (resolveCalls_loop fuel obj argIndex) s (fun r s' => exists g' m2', rpost g obj GP m1 s' g' m2').
+  kids g obj = l ++ r -> argIndex = last l InvalidIndex ->
+  wp (PL2 g l r m2 fuel) (resolveCalls_loop fuel obj argIndex) s (fun r0 s' => rlpost g obj GP m1 m2 l s').
 
 Lemma step_RC fuel : RCloop_spec fuel -> RC_spec (S fuel).
 Proof.
@@ -114,8 +122,11 @@ Proof.
   destruct (TI_live_get _ _ _ H Hl) as (o & Ho & Hlo).
   apply wp_bind. apply wp_rdf. exists o. split; [exact Ho|].
   destruct (R_kids _ _ HR _ _ Ho Hlo) as (_ & Hlast & _). rewrite Hlast.
-  apply (IHl x _ s g GP m1 m2 H Hty H0 Hl Hctx HK).
-  destruct (kids g x) as [|c l]; [left; reflexivity|right; apply last_In].
+  eapply wp_weaken; [apply (IHl x _ s g GP m1 m2 (kids g x) [] H Hty H0 Hl Hctx HK (eq_sym (app_nil_r _)) eq_refl)| |].
+  - intros HP n Hn. inversion Hn as [x' n' Hs]; subst. specialize (HP n' Hs). cbn [length] in HP. lia.
+  - intros r s' (g' & m2' & A & B & C). exists g', m2'. split; [exact A|]. split; [exact B|].
+    intros q Hq Hqt. apply C; [|intros ->; apply Hq; constructor|exact Hqt].
+    intros c Hc Hd. apply Hq. eapply desc_trans2; [eapply desc_step; [constructor|exact Hc]|exact Hd].
 Qed.
 
 Lemma nk_calls : newok aml_pOpIntNamePath /\ newok aml_pOpIntMethodCall /\ newok aml_pOpIntResolvedNamePath /\
@@ -125,59 +136,105 @@ Proof. repeat split; try (apply newokb_sound; reflexivity); try discriminate; ap
 
 Lemma step_RCloop fuel : RC_spec fuel -> RCloop_spec fuel -> RCloop_spec (S fuel).
 Proof.
-  intros IHc IHl obj argIndex s g GP m1 m2 H Hty H0 Hl Hctx HK Harg. cbn [resolveCalls_loop].
+  intros IHc IHl obj argIndex s g GP m1 m2 l r H Hty H0 Hl Hctx HK Hkl Harg. cbn [resolveCalls_loop].
   set (S0 := desc g (top obj GP)).
   assert (HS0top : S0 (top obj GP)) by constructor.
   assert (HS0obj : S0 obj) by (eapply desc_top; eauto).
   destruct (N.eqb_spec argIndex InvalidIndex) as [Ei|Ei].
-  { apply wp_ret. exists g, m2. split; auto. split; [apply reloc_refl|]. auto. }
-  destruct Harg as [?|Hin]; [contradiction|].
+  { apply wp_ret. exists g, m2. split; [split; auto; split; [apply reloc_refl|]; auto|]. split; [lia|]. intros q _ _ _. reflexivity. }
+  assert (Hne : l <> []) by (intros ->; cbn in Harg; contradiction).
+  destruct (last_split l InvalidIndex Hne) as (l' & El). rewrite <- Harg in El. subst l. rewrite <- app_assoc in Hkl. cbn [app] in Hkl.
+  assert (Hin : In argIndex (kids g obj)) by (rewrite Hkl; apply in_or_app; right; left; reflexivity).
   pose proof (ti_R _ _ H) as HR. pose proof (R_gwf _ _ HR) as Hwf. destruct (Hwf _ _ Hin) as (_ & Hla).
   apply wp_bind. apply wp_objectAt'; [apply (TI_ObjectAt _ _ _ H Hla)|].
   destruct (TI_live_get _ _ _ H Hla) as (ao0 & Hao0 & Hlao0).
   apply wp_bind. apply wp_rdf. exists ao0. split; [exact Hao0|]. rewrite (R_index _ _ HR _ _ Hao0).
-  destruct (in_split _ _ Hin) as (l1 & l2 & Ekids).
+  assert (Hsplit : forall m, szl g (l' ++ [argIndex]) m -> exists a n, szl g l' a /\ sz g argIndex n /\ m = (a + n)%nat).
+  { intros m Hm. destruct (szl_app g l' [argIndex] m Hm) as (a & b & A & B & E). exists a, b. split; [exact A|]. split; [apply szl_one; exact B|exact E]. }
+  assert (Hin' : forall c, In c l' -> In c (kids g obj)) by (intros c Hc; rewrite Hkl; apply in_or_app; left; exact Hc).
+  assert (Hnd : NoDup (l' ++ argIndex :: r)).
+  { destruct (TI_live_get _ _ _ H Hl) as (oo & Hoo & Hloo). destruct (R_kids _ _ HR _ _ Hoo Hloo) as (_ & _ & _ & Hn). rewrite Hkl in Hn. exact Hn. }
+  assert (Hca : forall c, In c l' -> c <> argIndex).
+  { intros c Hc ->. apply NoDup_remove_2 in Hnd. apply Hnd. apply in_or_app. left. exact Hc. }
   (* the subtree of the argument *)
-  apply wp_bind. eapply wp_weaken; [apply (IHc argIndex s g (Some obj) l1 l2 H Hty H0 Hla Ekids HK)|auto|].
-  intros res s1 (g1 & l2a & H1 & Rl1 & Hk1 & Hroots1 & Hty1 & HK1). cbn [top ctx] in Rl1, Hk1.
+  apply wp_bind. eapply wp_weaken; [apply (IHc argIndex s g (Some obj) l' r H Hty H0 Hla Hkl HK)| |].
+  { intros HP m Hm. destruct (Hsplit m Hm) as (a & n & A & B & ->). specialize (HP n B). lia. }
+  intros res s1 (g1 & r1 & (H1 & Rl1 & Hk1 & Hroots1 & Hty1 & HK1) & Hlen1 & HF1). cbn [top ctx] in Rl1, Hk1, HF1.
   assert (Rl1' : reloc g g1 S0).
   { eapply reloc_lift; [|exact Rl1]. intros y Hy. eapply desc_in_closed; [apply closed_desc|exact HS0obj|exact Hy]. }
   assert (Hctx1 : ctx g1 obj GP m1 m2) by (apply (ctx_inside s g g1 obj GP m1 m2 H Hctx Rl1 Hroots1)).
   assert (Hl1 : glive g1 obj) by (apply (reloc_glive _ _ _ obj Rl1); exact Hl).
   assert (H01 : glive g1 0) by (apply (reloc_glive _ _ _ 0 Rl1); exact H0).
-  destruct (negb (pres_eqb res ROk)).
-  { apply wp_ret. exists g1, m2. split; auto. }
-  (* the continuation: the previous argument *)
-  assert (Hcont : forall s2 g2 l2b m2b, TI s2 g2 -> typed (p_tree s2) -> reloc g g2 S0 -> kids g2 obj = l1 ++ argIndex :: l2b ->
-     ctx g2 obj GP m1 m2b -> (forall r, groot g r -> groot g2 r) -> K (p_tree s2) g2 ->
-     wp True (mlet prev <~ rdf argIndex o_prev ;; resolveCalls_loop fuel obj prev) s2
-        (fun r s' => exists g' m2', rpost g obj GP m1 s' g' m2')).
-  { intros s2 g2 l2b m2b H2 Hty2 Rl2 Hk2 Hctx2 Hroots2 HK2. pose proof (ti_R _ _ H2) as HR2.
-    assert (Hin2 : In argIndex (kids g2 obj)) by (rewrite Hk2; apply in_or_app; right; left; reflexivity).
-    destruct ((R_gwf _ _ HR2) _ _ Hin2) as (Hlo2 & Hla2).
-    destruct (TI_live_get _ _ _ H2 Hla2) as (ao2 & Hao2 & Hlao2).
-    apply wp_bind. apply wp_rdf. exists ao2. split; [exact Hao2|].
-    assert (H02 : glive g2 0) by (apply (reloc_glive _ _ _ 0 Rl2); exact H0).
-    eapply wp_weaken; [apply (IHl obj (o_prev ao2) s2 g2 GP m1 m2b H2 Hty2 H02 Hlo2 Hctx2 HK2)|auto|].
-    - apply (prev_sibling _ _ HR2 obj argIndex ao2 Hin2 Hao2).
-    - intros r' s' (g' & m2' & F1 & F2 & F3 & F4 & F5 & F6). exists g', m2'. split; auto.
-      split; [eapply reloc_chain; [apply closed_desc|exact HS0top|exact Rl2|exact F2]|].
-      split; [exact F3|]. split; [intros r0 Hr0; apply F4; apply Hroots2; exact Hr0|]. split; [exact F5|exact F6]. }
   pose proof (ti_R _ _ H1) as HR1.
+  assert (Hsame1 : forall c y, In c l' -> desc g c y -> kids g1 y = kids g y).
+  { intros c y Hc Hd. apply HF1.
+    - intros Hd'. apply (Hca c Hc). apply (siblings_disjoint2 (p_tree s) g obj c argIndex y HR (Hin' c Hc) Hin Hd Hd').
+    - intros ->. apply (child_not_desc _ _ HR obj c (Hin' c Hc) Hd). }
+  assert (HFq1 : forall q, (forall c, In c (l' ++ [argIndex]) -> ~ desc g c q) -> q <> obj -> q <> top obj GP -> kids g1 q = kids g q).
+  { intros q Hq Hqo _. apply HF1; [apply Hq; apply in_or_app; right; left; reflexivity|exact Hqo]. }
+  destruct (negb (pres_eqb res ROk)).
+  { apply wp_ret. exists g1, m2. split; [split; auto|]. split; [lia|]. exact HFq1. }
+  (* what a rearrangement at [obj] / [argIndex] / the parent of [obj] adds *)
+  assert (Hin1' : forall c, In c l' -> In c (kids g1 obj)) by (intros c Hc; rewrite Hk1; apply in_or_app; left; exact Hc).
+  assert (Hin1a : In argIndex (kids g1 obj)) by (rewrite Hk1; apply in_or_app; right; left; reflexivity).
+  assert (Hcomp : forall g2, others g1 g2 obj argIndex GP ->
+            (forall c y, In c l' -> desc g c y -> kids g2 y = kids g y) /\
+            (forall q, (forall c, In c (l' ++ [argIndex]) -> ~ desc g c q) -> q <> obj -> q <> top obj GP -> kids g2 q = kids g q)).
+  { intros g2 HF2.
+    assert (Hnottop : forall c y, In c l' -> desc g1 c y -> y <> top obj GP).
+    { intros c y Hc Hd ->. destruct GP as [gp|]; cbn [top ctx] in *.
+      - assert (Hin_o : In obj (kids g1 gp)) by (rewrite Hctx1; apply in_or_app; right; left; reflexivity).
+        apply (child_not_desc _ _ HR1 gp obj Hin_o). eapply desc_trans2; [eapply desc_step; [constructor|exact (Hin1' c Hc)]|exact Hd].
+      - apply (child_not_desc _ _ HR1 obj c (Hin1' c Hc) Hd). }
+    assert (Hsame2 : forall c y, In c l' -> desc g1 c y -> kids g2 y = kids g1 y).
+    { intros c y Hc Hd. apply HF2.
+      - intros ->. apply (child_not_desc _ _ HR1 obj c (Hin1' c Hc) Hd).
+      - intros ->. apply (Hca c Hc). apply (siblings_disjoint2 (p_tree s1) g1 obj c argIndex argIndex HR1 (Hin1' c Hc) Hin1a Hd). constructor.
+      - apply (Hnottop c y Hc Hd). }
+    split.
+    - intros c y Hc Hd. rewrite (Hsame2 c y Hc); [apply (Hsame1 c y Hc Hd)|].
+      apply (desc_same_fwd g g1 c y); [intros z Hz; apply (Hsame1 c z Hc Hz)|exact Hd].
+    - intros q Hq Hqo Hqt. rewrite HF2; [apply HFq1; auto|exact Hqo| |exact Hqt].
+      intros ->. apply (Hq argIndex); [apply in_or_app; right; left; reflexivity|constructor]. }
+  (* the continuation: the previous argument *)
+  assert (Hcont : forall s2 g2 r2 m2b, TI s2 g2 -> typed (p_tree s2) -> reloc g g2 S0 -> kids g2 obj = l' ++ argIndex :: r2 ->
+     ctx g2 obj GP m1 m2b -> (forall r, groot g r -> groot g2 r) -> K (p_tree s2) g2 ->
+     (length r2 <= length r)%nat -> (length m2b <= length m2)%nat ->
+     (forall c y, In c l' -> desc g c y -> kids g2 y = kids g y) ->
+     (forall q, (forall c, In c (l' ++ [argIndex]) -> ~ desc g c q) -> q <> obj -> q <> top obj GP -> kids g2 q = kids g q) ->
+     wp (PL2 g (l' ++ [argIndex]) r m2 (Datatypes.S fuel)) (mlet prev <~ rdf argIndex o_prev ;; resolveCalls_loop fuel obj prev) s2
+        (fun r0 s' => rlpost g obj GP m1 m2 (l' ++ [argIndex]) s')).
+  { intros s2 g2 r2 m2b H2 Hty2 Rl2 Hk2 Hctx2 Hroots2 HK2 Hlr Hlm Hs12 HFq2. pose proof (ti_R _ _ H2) as HR2.
+    assert (Hlo2 : glive g2 obj) by (apply (reloc_glive _ _ _ obj Rl2); exact Hl).
+    destruct (sibling_links _ _ HR2 obj l' argIndex r2 Hlo2 Hk2) as (ao2 & Hao2 & _ & _ & Hprev & _).
+    apply wp_bind. apply wp_rdf. exists ao2. split; [exact Hao2|]. rewrite Hprev.
+    assert (H02 : glive g2 0) by (apply (reloc_glive _ _ _ 0 Rl2); exact H0).
+    eapply wp_weaken; [apply (IHl obj (last l' InvalidIndex) s2 g2 GP m1 m2b l' (argIndex :: r2) H2 Hty2 H02 Hlo2 Hctx2 HK2 Hk2 eq_refl)| |].
+    - intros HP m Hm. destruct (Hsplit m Hm) as (a & n & A & B & ->).
+      specialize (HP a (proj2 (sz_same g g2) l' a A Hs12)). pose proof (sz_pos _ _ _ B). cbn [length] in HP. lia.
+    - intros r' s' (g' & m2' & (F1 & F2 & F3 & F4 & F5 & F6) & Flen & FF). exists g', m2'.
+      split; [split; [exact F1|]; split; [eapply reloc_chain; [apply closed_desc|exact HS0top|exact Rl2|exact F2]|]|].
+      + split; [exact F3|]. split; [intros r0' Hr0; apply F4; apply Hroots2; exact Hr0|]. split; [exact F5|exact F6].
+      + split; [lia|]. intros q Hq Hqo Hqt. rewrite FF; [apply HFq2; auto| |exact Hqo|exact Hqt].
+        intros c Hc Hd. apply (Hq c); [apply in_or_app; left; exact Hc|].
+        apply (desc_same g g2 c q (fun y Hy => Hs12 c y Hc Hy) Hd). }
   assert (Hla1 : glive g1 argIndex) by (apply (reloc_glive _ _ _ argIndex Rl1); exact Hla).
-  destruct (sibling_links _ _ HR1 obj l1 argIndex l2a Hl1 Hk1) as (ao & Hao & Hlao & Hapar & _ & _ & _).
+  destruct (sibling_links _ _ HR1 obj l' argIndex r1 Hl1 Hk1) as (ao & Hao & Hlao & Hapar & _ & _ & _).
   apply wp_bind. apply wp_rdo. exists ao. split; [exact Hao|].
   apply wp_bind, wp_get.
   destruct (negb (o_opcode ao =? aml_pOpIntNamePathOrMethodCall) || negb (o_tableHandle ao =? p_handle s1)) eqn:Ecall.
   { (* not a call candidate of this table: connectNonNamedObjArg *)
-    apply wp_bind. eapply wp_weaken; [apply (arg_spec K K_move fuel obj argIndex s1 g1 l1 l2a GP m1 m2 H1 Hl1 Hk1 Hctx1 HK1)|auto|].
-    intros r s2 (g2 & l2b & m2b & (H2 & Rl2 & Hctx2 & Hroots2 & Hpf2 & HK2) & Hk2).
+    apply wp_bind. eapply wp_weaken; [apply (arg_spec K K_move fuel obj argIndex s1 g1 l' r1 GP m1 m2 H1 Hl1 Hk1 Hctx1 HK1)| |].
+    { intros HP m Hm. destruct (Hsplit m Hm) as (a & n & A & B & ->). pose proof (sz_pos _ _ _ B). lia. }
+    intros r0 s2 (g2 & r2 & m2b & (H2 & Rl2 & Hctx2 & Hroots2 & Hpf2 & HK2) & Hk2 & Hlen2 & Hlenm2 & HF2).
     assert (Rl2' : reloc g g2 S0) by (eapply reloc_chain; [apply closed_desc|exact HS0top|exact Rl1'|exact Rl2]).
     assert (Hty2 : typed (p_tree s2)) by (eapply typed_pframe; eauto).
-    destruct (pres_eqb r RFailed).
-    { apply wp_ret. exists g2, m2b. split; [exact H2|]. split; [exact Rl2'|]. split; [exact Hctx2|].
-      split; [intros r0 Hr0; apply Hroots2; apply Hroots1; exact Hr0|]. split; [exact Hty2|exact HK2]. }
-    apply (Hcont s2 g2 l2b m2b); auto. }
+    destruct (Hcomp g2 HF2) as (Hs12 & HFq2).
+    destruct (pres_eqb r0 RFailed).
+    { apply wp_ret. exists g2, m2b. split; [split; [exact H2|]; split; [exact Rl2'|]; split; [exact Hctx2|];
+        split; [intros r' Hr'; apply Hroots2; apply Hroots1; exact Hr'|]; split; [exact Hty2|exact HK2]|].
+      split; [exact Hlenm2|exact HFq2]. }
+    apply (Hcont s2 g2 r2 m2b); auto; lia. }
   (* a name path that may be a method call *)
   apply orb_false_elim in Ecall. destruct Ecall as (Eop & _). apply negb_false_iff in Eop. apply N.eqb_eq in Eop.
   destruct (Hty1 _ _ Hao Hlao Eop) as (tbl & sl & Hval). rewrite Hval.
@@ -193,13 +250,17 @@ Proof.
   pose proof (Find_result_live _ _ HR1 obj expr _ Hlive_obj Hlive_0 Efind) as Hres.
   set (target := enc_result (resolve g1 (name_at (p_tree s1)) obj expr)) in *.
   destruct nk_calls as (NK1 & NK2 & NK3 & NE1 & NE2 & NE3).
+  assert (Hstay : forall s2, TI s2 g1 -> typed (p_tree s2) -> K (p_tree s2) g1 ->
+     wp (PL2 g (l' ++ [argIndex]) r m2 (Datatypes.S fuel)) (mlet prev <~ rdf argIndex o_prev ;; resolveCalls_loop fuel obj prev) s2
+        (fun r0 s' => rlpost g obj GP m1 m2 (l' ++ [argIndex]) s')).
+  { intros s2 H2 Hty2 HK2. apply (Hcont s2 g1 r1 m2); auto. }
   destruct (N.eqb_spec target InvalidIndex) as [Et|Et].
   { (* not found: a plain name path *)
     apply wp_bind. eapply (wp_set_opcode _ argIndex _ s1 g1); [exact H1|exact Hla1|exact NK1|]. intros H2.
     destruct (nk_info _ NK1) as (idx & Hidx & Hinf).
     apply wp_bind. eapply wp_tableIndex; [exact Hidx|].
     apply wp_bind. eapply (wp_set_info _ argIndex idx _ g1); [exact H2|exact Hla1|exact Hinf|]. intros H3.
-    apply (Hcont _ g1 l2a m2); auto.
+    apply Hstay; [exact H3| |].
     - apply typed_tset; [apply typed_tset; [exact Hty1|intros o _; exact NE1]|].
       intros o Ho. cbn [o_opcode set_infoIndex]. pcbn_in Ho. rewrite get_tset, N.eqb_refl, Hao in Ho. cbn [option_map] in Ho.
       inversion Ho. cbn [o_opcode set_opcode]. exact NE1.
@@ -223,37 +284,42 @@ Proof.
       - intros o Ho. cbn [o_opcode set_value]. rewrite !get_tset, !N.eqb_refl, Hao in Ho. cbn [option_map] in Ho. inversion Ho. exact NE2. }
     assert (HK4 : K (p_tree s4) g1).
     { unfold s4. pcbn. rewrite !tset_twice. apply (K_upd _ g1 argIndex ao _ HR1 HK1 Hao Eop); cbn [o_opcode set_infoIndex set_opcode set_value]; [vm_compute; discriminate|exact NE2]. }
+    assert (Hend4 : forall (PP : Prop) (rr : pres), wp PP (ret rr) s4 (fun r0 s' => rlpost g obj GP m1 m2 (l' ++ [argIndex]) s')).
+    { intros PP rr. apply wp_ret. exists g1, m2. split; [split; auto|]. split; [lia|exact HFq1]. }
     pose proof (ti_R _ _ H4) as HR4.
     assert (Hlive_t4 : live (p_tree s4) target) by (apply (R_live_glive _ _ HR4); exact Hlt1).
     apply wp_bind. eapply wp_tq; [apply (ArgAt_spec _ _ HR4 target 1 Hlive_t4)|].
     destruct (nth_error (kids g1 target) (N.to_nat 1)) as [fo|] eqn:Efo.
-    2:{ apply wp_ret. exists g1, m2. split; auto. }
+    2:{ apply Hend4. }
     assert (Hlfo : glive g1 fo) by (apply ((R_gwf _ _ HR4) target fo); eapply nth_error_In; eauto).
     destruct (TI_live_get _ _ _ H4 Hlfo) as (fobj & Hfobj & _).
     apply wp_bind. apply wp_rdo. exists fobj. split; [exact Hfobj|].
-    destruct (o_value fobj) as [[argCnt|? ?|?|?]|]; try (apply wp_ret; exists g1, m2; split; auto; fail).
+    destruct (o_value fobj) as [[argCnt|? ?|?|?]|]; try (apply Hend4; fail).
     apply wp_bind. unfold attachSiblingsAsArgs.
-    destruct (sibling_links _ _ HR4 obj l1 argIndex l2a Hl1 Hk1) as (ao4 & Hao4 & _ & _ & _ & Hnx4 & _).
+    destruct (sibling_links _ _ HR4 obj l' argIndex r1 Hl1 Hk1) as (ao4 & Hao4 & _ & _ & _ & Hnx4 & _).
     apply wp_bind. apply wp_rdf. exists ao4. split; [exact Hao4|]. rewrite Hnx4.
-    eapply wp_weaken; [apply (attach2_spec K K_move fuel obj argIndex (hd InvalidIndex l2a) _ s4 g1 l1 l2a GP m1 m2 H4 Hl1 Hk1 Hctx1)|auto|].
-    + destruct l2a as [|y l2a']; cbn [sib_ok hd]; [left|]; reflexivity.
+    eapply wp_weaken; [apply (attach2_spec K K_move fuel obj argIndex (hd InvalidIndex r1) _ s4 g1 l' r1 GP m1 m2 H4 Hl1 Hk1 Hctx1)| |].
+    + destruct r1 as [|y r1']; cbn [sib_ok hd]; [left|]; reflexivity.
     + exact HK4.
     + exists ao4. split; [exact Hao4|]. unfold s4 in Hao4. pcbn_in Hao4. rewrite !get_tset, !N.eqb_refl, Hao in Hao4. cbn [option_map] in Hao4.
       inversion Hao4. cbn [o_infoIndex set_value set_infoIndex]. intros E. rewrite E in Hidx. vm_compute in Hidx. discriminate.
-    + intros r s5 (g5 & l2b & m2b & H5 & Rl5 & Hk5 & Hctx5 & Hroots5 & Hpf5 & HK5).
+    + intros HP m Hm. destruct (Hsplit m Hm) as (a & n & A & B & ->). pose proof (sz_pos _ _ _ B). lia.
+    + intros r0 s5 (g5 & r5 & m2b & H5 & Rl5 & Hk5 & Hctx5 & Hroots5 & Hpf5 & HK5 & Hlen5 & Hlenm5 & HF5).
       assert (Rl5' : reloc g g5 S0) by (eapply reloc_chain; [apply closed_desc|exact HS0top|exact Rl1'|exact Rl5]).
       assert (Hty5 : typed (p_tree s5)) by (eapply typed_pframe; eauto).
-      destruct (negb (pres_eqb r ROk)).
-      { apply wp_ret. exists g5, m2b. split; [exact H5|]. split; [exact Rl5'|]. split; [exact Hctx5|].
-        split; [intros r0 Hr0; apply Hroots5; apply Hroots1; exact Hr0|]. split; [exact Hty5|exact HK5]. }
-      apply (Hcont s5 g5 l2b m2b); auto.
+      destruct (Hcomp g5 HF5) as (Hs15 & HFq5).
+      destruct (negb (pres_eqb r0 ROk)).
+      { apply wp_ret. exists g5, m2b. split; [split; [exact H5|]; split; [exact Rl5'|]; split; [exact Hctx5|];
+          split; [intros r' Hr'; apply Hroots5; apply Hroots1; exact Hr'|]; split; [exact Hty5|exact HK5]|].
+        split; [exact Hlenm5|exact HFq5]. }
+      apply (Hcont s5 g5 r5 m2b); auto; try lia.
   - (* a reference to another object *)
     apply wp_bind. eapply (wp_set_opcode _ argIndex _ s1 g1); [exact H1|exact Hla1|exact NK3|]. intros H2.
     destruct (nk_info _ NK3) as (idx & Hidx & Hinf).
     apply wp_bind. eapply wp_tableIndex; [exact Hidx|].
     apply wp_bind. eapply (wp_set_info _ argIndex idx _ g1); [exact H2|exact Hla1|exact Hinf|]. intros H3.
     apply wp_bind. eapply (wp_set_vidx _ argIndex _ _ g1); [exact H3|exact Hla1|]. intros H4.
-    apply (Hcont _ g1 l2a m2); auto.
+    apply Hstay; [exact H4| |].
     + pcbn. apply typed_tset; [apply typed_tset; [apply typed_tset; [exact Hty1|intros o _; exact NE3]|]|].
       * intros o Ho. cbn [o_opcode set_infoIndex]. rewrite get_tset, N.eqb_refl, Hao in Ho. cbn [option_map] in Ho. inversion Ho. exact NE3.
       * intros o Ho. cbn [o_opcode set_value]. rewrite !get_tset, !N.eqb_refl, Hao in Ho. cbn [option_map] in Ho. inversion Ho. exact NE3.
@@ -263,7 +329,9 @@ Qed.
 Lemma calls_all : forall fuel, RC_spec fuel /\ RCloop_spec fuel.
 Proof.
   induction fuel as [|fuel (IHc & IHl)].
-  - split; intro; intros; cbn [resolveMethodCalls resolveCalls_loop]; apply wp_outOfFuel; exact I.
+  - split; intro; intros; cbn [resolveMethodCalls resolveCalls_loop]; apply wp_outOfFuel.
+    + intros n Hn. pose proof (sz_pos _ _ _ Hn). lia.
+    + intros m Hm. lia.
   - split; [apply step_RC; exact IHl|apply step_RCloop; assumption].
 Qed.
 End Inv.
@@ -283,7 +351,7 @@ Proof.
   intros fuel s g HR Hi Hp Hty H0 Hroot.
   pose proof (proj1 (calls_all KT KT_move KT_upd fuel) 0 s g None [] [] (mkTI _ _ HR Hi Hp) Hty H0 H0 (conj Hroot eq_refl) I) as W. unfold wp in W.
   destruct (resolveMethodCalls fuel 0 s) as [[r s']| |]; auto.
-  destruct W as (g' & m2' & [A B C] & _ & _ & _ & D & _). eauto.
+  destruct W as (g' & m2' & ([A B C] & _ & _ & _ & D & _) & _). eauto.
 Qed.
 
 (** the hypotheses are satisfiable: a state whose pool holds just a root scope *)
